@@ -2,3 +2,6 @@ package nbs
 
 const verifBoundN = 3
 const verifBoundJournalBytes = 24
+const verifBoundBatch = 3
+const verifBoundRootRec = 40
+const verifBoundFile = 10
